@@ -27,44 +27,6 @@ import (
 	vs "verif.local/kit/stat"
 )
 
-// pgChooser abstracts the source of structural choices so that the same case
-// construction runs under rapid and under the raw-bytes native fuzz target.
-type pgChooser interface {
-	Intn(n int) int // value in [0,n); n <= 1 yields 0
-}
-
-type pgRapidChooser struct{ rt *rapid.T }
-
-func (c pgRapidChooser) Intn(n int) int {
-	if n <= 1 {
-		return 0
-	}
-	return rapid.IntRange(0, n-1).Draw(c.rt, "c")
-}
-
-type pgByteChooser struct {
-	data []byte
-	pos  int
-}
-
-func (c *pgByteChooser) Intn(n int) int {
-	if n <= 1 {
-		return 0
-	}
-	v := 0
-	if c.pos < len(c.data) {
-		v = int(c.data[c.pos])
-		c.pos++
-	}
-	if n > 256 && c.pos < len(c.data) {
-		v = v<<8 | int(c.data[c.pos])
-		c.pos++
-	}
-	return v % n
-}
-
-func (c *pgByteChooser) exhausted() bool { return c.pos >= len(c.data) }
-
 // c09Input is one argument tuple of VerifyRangeProof together with the world whose
 // root is claimed.
 type c09Input struct {
@@ -407,46 +369,6 @@ func c09Honest(t pgFataler, w *pgWorld, i, j int, kind string, sel int) (in *c09
 	return in, true
 }
 
-// c09Sibling derives a world that differs from w in 1..3 entries (same key length),
-// so that its nodes are plausible foreign nodes and its root a plausible wrong root.
-func c09Sibling(t pgFataler, w *pgWorld, ch pgChooser, rnd *mrand.Rand) *pgWorld {
-	ents := append([]pgKV{}, w.Ents...)
-	for m := 1 + ch.Intn(3); m > 0; m-- {
-		switch op := ch.Intn(3); {
-		case op == 0 && len(ents) > 1: // delete
-			i := ch.Intn(len(ents))
-			ents = append(ents[:i:i], ents[i+1:]...)
-		case op == 1 && len(ents) > 0: // change value
-			i := ch.Intn(len(ents))
-			v := make([]byte, 1+rnd.Intn(40))
-			rnd.Read(v)
-			ents[i] = pgKV{K: ents[i].K, V: v}
-		default: // add
-			k := make([]byte, w.KeyLen)
-			rnd.Read(k)
-			if len(ents) > 0 && w.KeyLen > 1 && rnd.Intn(2) == 0 {
-				k = pgSpliceNibbles(ents[rnd.Intn(len(ents))].K, k, 1+rnd.Intn(2*w.KeyLen-1))
-			}
-			dup := false
-			for _, e := range ents {
-				if bytes.Equal(e.K, k) {
-					dup = true
-				}
-			}
-			if !dup {
-				v := make([]byte, 1+rnd.Intn(40))
-				rnd.Read(v)
-				ents = append(ents, pgKV{K: k, V: v})
-			}
-		}
-	}
-	b, err := pgBuildWorld("sibling-of-"+w.Class, w.KeyLen, ents, rnd, false)
-	if err != nil {
-		t.Fatalf("VERIF-HARNESS-BUG: %v", err)
-	}
-	return b
-}
-
 var c09Ops = []string{
 	"dropEntry", "insertEntry", "alterKey", "alterVal", "neighbourVal", "emptyVal", "swap", "swapVals", "dupKey",
 	"shiftWindow", "extendRun", "keyLen", "lenMismatch", "firstGreater", "firstLower", "firstLen",
@@ -766,7 +688,7 @@ func c09RunWorld(t pgFataler, st *vs.S, w *pgWorld, ch pgChooser, rnd *mrand.Ran
 	if len(pool) == 0 {
 		t.Fatalf("VERIF-HARNESS-BUG: no honest case for world %s with %d entries", w.Class, n)
 	}
-	b := c09Sibling(t, w, ch, rnd)
+	b := pgSibling(t, w, ch, rnd)
 	for k := 0; k < nTamper; k++ {
 		in := pool[ch.Intn(len(pool))].clone()
 		if !in.NoProof && ch.Intn(3) == 0 {
@@ -969,44 +891,6 @@ func FuzzVerifC09Rapid(f *testing.F) {
 	f.Fuzz(rapid.MakeFuzz(c09Prop(st)))
 }
 
-// c09WorldFromBytes builds a world directly from fuzzer bytes: the fuzzer controls
-// key length, entry count and the leading bytes of every key (the trie shape).
-func c09WorldFromBytes(t pgFataler, ch *pgByteChooser) *pgWorld {
-	keyLen := []int{1, 2, 4, 32}[ch.Intn(4)]
-	n := 1 + ch.Intn(48)
-	seen := map[string]bool{}
-	var ents []pgKV
-	for i := 0; i < n && !ch.exhausted(); i++ {
-		k := make([]byte, keyLen)
-		ctl := min(keyLen, 3)
-		for x := 0; x < ctl; x++ {
-			k[x] = byte(ch.Intn(256))
-		}
-		if keyLen > ctl {
-			h := reftrie.Keccak256(k[:ctl], []byte{byte(i)})
-			copy(k[ctl:], h[:])
-			if keyLen == 32 && ch.Intn(4) == 0 && len(ents) > 0 {
-				k = pgSpliceNibbles(ents[ch.Intn(len(ents))].K, k, 1+ch.Intn(63))
-			}
-		}
-		if seen[string(k)] {
-			continue
-		}
-		seen[string(k)] = true
-		vl := pgValLens[ch.Intn(len(pgValLens))]
-		v := bytes.Repeat([]byte{byte(i + 1)}, vl)
-		ents = append(ents, pgKV{K: k, V: v})
-	}
-	if len(ents) == 0 {
-		return nil
-	}
-	w, err := pgBuildWorld(fmt.Sprintf("bytes%d", keyLen), keyLen, ents, nil, ch.Intn(4) == 0)
-	if err != nil {
-		t.Fatalf("VERIF-HARNESS-BUG: %v", err)
-	}
-	return w
-}
-
 // FuzzVerifC09Bytes interprets raw bytes as (trie shape, runs, tamperings) and
 // applies the same oracle.
 func FuzzVerifC09Bytes(f *testing.F) {
@@ -1020,7 +904,7 @@ func FuzzVerifC09Bytes(f *testing.F) {
 			data = data[:4096]
 		}
 		ch := &pgByteChooser{data: data}
-		w := c09WorldFromBytes(t, ch)
+		w := pgWorldFromBytes(t, ch)
 		if w == nil {
 			return
 		}
